@@ -3,7 +3,14 @@ C06 — lazy (streaming) processing gives the same results as full loading.
 
 Correspondence (implementation vs Lean model XsVerif/Model/Lazy.lean, driver drv_c06):
   * namespace maps assigned by the lazy loader and by the eager loader vs the ports of the two loops,
-  * order / ancestors of the elements yielded by lazy `iter`, `iter_depth` (modes 1-5), `iterfind`,
+  * order / ancestors of the elements yielded by lazy `iter` (the loop of the library under check is detected:
+    pinned = reversed post-order below the lazy depth, patched = document order), `iter_depth` (modes 1-5), `iterfind`,
+    lazy depths 1-4 on documents deeper / as deep / shallower than the lazy depth,
+  * the live tree of `iter_depth` (model ldStep / TB.clear, the port of `_clear`): at every yield the yielded element
+    (must be the complete subtree), the siblings still in the tree before it, len(_nsmaps); after the iteration the
+    tree that is left and len(_nsmaps); thin and not thin, modes 1-5, lazy depths 1-4,
+  * the lazy error sequence at lazy depths 2-4 (errors that do not depend on document-wide tables) vs the model of the
+    lazy driver at depth k,
   * the eager error sequence re-assembled by the compositional validator of the model from the per-element
     error segments measured on the real run, and the lazy error sequence predicted by the port of the lazy
     driver (chunks looked up statically, skip rule, root with depth cut, references last).
@@ -29,7 +36,8 @@ from harness import lib_lazy as L
 PROPS = 'XsVerif.Props.C06'
 AUDIT = 'XsVerif.Audit.C06'
 LEAN_TARGETS = ['XsVerif.Props.C06', 'drv_c06']
-LEANCHECK = ['XsVerif.Model.Lazy', 'XsVerif.Lemmas.Lazy', 'XsVerif.Props.C06']
+LEANCHECK = ['XsVerif.Model.Lazy', 'XsVerif.Model.LazyLive', 'XsVerif.Lemmas.Lazy', 'XsVerif.Lemmas.LazyLive',
+             'XsVerif.Props.C06']
 RULE = ('a case is one (generated schema, generated document, API, lazy depth, thin_lazy, read size); schemas have local '
         'declarations with repeated names, references, a substitution group, wildcard tails, xsi:type-extensible types, '
         'ID/IDREF and key/unique/keyref; documents are mostly valid with seeded defects and random namespace '
@@ -40,7 +48,13 @@ TRUSTED = ['the event order delivered by ElementTree.iterparse (start-ns*, start
            'model; the harness feeds the real parser a few bytes at a time so that the real incremental behaviour is '
            'what is compared',
            'the abstract validator of the model is instantiated from error segments measured on the real eager run']
-ASSUMPTIONS = ['lazy depth 1 is claimed; depths 2 and 3 are explored and reported in the histogram only',
+ASSUMPTIONS = ['the PROPERTY lazy == eager is claimed at lazy depth 1; at depths 2-4 it is explored (histogram explored-depth*), '
+               'while the MODEL of the loops, of the pruning and of the lazy driver is compared with the real code at depths 1-4 '
+               '(errors depending on ID/identity tables left out at depths >= 2; chunks under an intermediate element with own '
+               'xmlns declarations are measured with the driver\'s own call)',
+               'the live-tree model identifies objects by their place (open elements / last child), not by ids: `_clear` is '
+               'called right after the end event of its element with the open elements as ancestors (proved for the list by '
+               'iter_depth_spec); tied at every yield by the correspondence run',
                'compared up to spelling: namespace prefixes in error paths / messages, memory addresses in '
                'messages, and the order inside a block of dangling-IDREF errors (first-seen order of the ID table)',
                'decoded data: the lazily decoded skeleton with its placeholders filled by the streamed chunk values is '
@@ -65,6 +79,24 @@ def load_findings() -> list[dict]:
     if FINDINGS_FILE.exists():
         return json.loads(FINDINGS_FILE.read_text()).get('findings', [])
     return []
+
+
+_ITER_VARIANT: Optional[str] = None
+
+
+def iter_variant() -> str:
+    """Which lazy branch of XMLResource.iter does the library under check have?  'pinned': descendants of a
+    depth-level element in reversed post-order (model `iterStep`, theorem iter_lazy_order_pinned, finding C06-F11);
+    'patched': `yield from node.iter(tag)` (notes/fixes/C06-iter-document-order.patch; model `liStep`, theorem
+    iter_lazy_order).  Decided on a fixed four-element document; every generated document is then compared with the
+    model of the detected loop, and any order other than the detected loop's is a mismatch / failure."""
+    global _ITER_VARIANT
+    if _ITER_VARIANT is None:
+        import io
+        from xmlschema import XMLResource
+        seq = [e.tag for e in XMLResource(io.BytesIO(b'<r><a><b/><c/></a></r>'), lazy=1).iter()]
+        _ITER_VARIANT = 'patched' if seq == ['r', 'a', 'b', 'c'] else 'pinned'
+    return _ITER_VARIANT
 
 
 # ---------------------------------------------------------------------------------------------------
@@ -225,7 +257,7 @@ IDENT = re.compile(r"duplicated value|not found for Xsd|missing key field")
 STATEFUL = re.compile(ID_TABLE.pattern + '|' + IDENT.pattern)   # errors that depend on document-wide tables
 
 
-def chunk_errors_as(eg: Eager, elem, xsd_element) -> list:
+def chunk_errors_as(eg: Eager, elem, xsd_element, level: int = 1) -> list:
     """The errors the lazy driver collects for one depth-level element when it validates it against
     `xsd_element` (schemas.py:1364-1385 as it is now): a validation context at level 1 on the document, the
     element's OWN namespace declarations pushed (commit c3a1309; the declarations of deeper elements are pushed by
@@ -234,7 +266,7 @@ def chunk_errors_as(eg: Eager, elem, xsd_element) -> list:
     from xmlschema.namespaces import NamespaceMapper
     from xmlschema.validators.validation import ValidationContext
     from xmlschema.validators.exceptions import XMLSchemaStopValidation
-    context = ValidationContext(source=eg.res, converter=NamespaceMapper(None, source=eg.res), level=1,
+    context = ValidationContext(source=eg.res, converter=NamespaceMapper(None, source=eg.res), level=level,
                                 check_identities=True, use_defaults=True)
     context.converter.set_xmlns_context(elem, context.level)
     try:
@@ -244,8 +276,16 @@ def chunk_errors_as(eg: Eager, elem, xsd_element) -> list:
     return [canon_err(e) for e in context.errors]
 
 
-def build_tables(eg: Eager, schema, static_of: dict, created_of: Optional[dict] = None) -> Optional[dict]:
-    """error segments / governing declarations of the eager run as tables for the model"""
+def nodes_at(tree: dict, k: int) -> list:
+    level = [tree]
+    for _ in range(k):
+        level = [c for n in level for c in n['cs']]
+    return level
+
+
+def build_tables(eg: Eager, schema, static_of: dict, created_of: Optional[dict] = None, depth: int = 1) -> Optional[dict]:
+    """error segments / governing declarations of the eager run as tables for the model; `depth` = lazy depth (the
+    chunks are the elements at that depth)"""
     created_of = created_of or {}
     n = len(eg.errors)
     # trailing reference errors of the root
@@ -289,7 +329,7 @@ def build_tables(eg: Eager, schema, static_of: dict, created_of: Optional[dict] 
     table = list(eg.canon)
     seg_rows = [[d, o, s, idx] for (d, o, s), idx in segs.items()]
     nonlocal_chunks = []
-    for c in eg.tree['cs']:
+    for c in nodes_at(eg.tree, depth):
         cid = c['id']
         s = static_of.get(cid)
         g = eg.gov.get(cid)
@@ -297,7 +337,14 @@ def build_tables(eg: Eager, schema, static_of: dict, created_of: Optional[dict] 
             if g is not None:
                 nonlocal_chunks.append(cid)     # the lazy driver skips the chunk, the eager run validated it
             continue
-        if s is not None and s is g:
+        # k >= 2: namespace declarations written on an element strictly between the root and the chunk are not in
+        # scope when the chunk is validated alone (same root cause as C20-F3): such a chunk is measured, not predicted
+        between_decl = False
+        a = eg.parent.get(cid)
+        while a is not None and a != 0:
+            between_decl = between_decl or bool(eg.node[a]['decls'])
+            a = eg.parent.get(a)
+        if s is not None and s is g and not between_decl:
             static.append([cid, did(s)])
             continue
         # the lazy driver validates the chunk against another declaration than the eager run (the statically found
@@ -305,7 +352,7 @@ def build_tables(eg: Eager, schema, static_of: dict, created_of: Optional[dict] 
         nonlocal_chunks.append(cid)
         aid = 10 ** 6 + cid + 1
         try:
-            alt_errs = chunk_errors_as(eg, eg.elem[cid], s if s is not None else created_of[cid])
+            alt_errs = chunk_errors_as(eg, eg.elem[cid], s if s is not None else created_of[cid], level=depth)
         except Exception:   # noqa  (the real lazy run will raise as well: nothing to predict)
             alt_errs = []
             alt_failed.append(cid)
@@ -320,7 +367,7 @@ def build_tables(eg: Eager, schema, static_of: dict, created_of: Optional[dict] 
             'alt_failed': alt_failed}
 
 
-def static_lookup(schema, eg: Eager) -> tuple[dict, dict]:
+def static_lookup(schema, eg: Eager, k: int = 1) -> tuple[dict, dict]:
     """what the lazy driver's `get_element(tag, '/root/*')` returns for every depth-1 element, and the element it
     creates for a depth-1 element without a match that carries xsi:type (schemas.py:1364-1367)"""
     from xmlschema.namespaces import NamespaceMapper
@@ -333,9 +380,9 @@ def static_lookup(schema, eg: Eager) -> tuple[dict, dict]:
         sch = schema
     out = {}
     created = {}
-    for c in eg.tree['cs']:
+    for c in nodes_at(eg.tree, k):
         e = eg.elem[c['id']]
-        xe = sch.get_element(e.tag, f'/{root.tag}/*', namespaces)
+        xe = sch.get_element(e.tag, f"/{root.tag}/{'/'.join('*' * k)}", namespaces)
         out[c['id']] = xe
         if xe is None and ('{%s}type' % L.XSI) in e.attrib:
             created[c['id']] = schema.builders.create_element(e.tag, schema)
@@ -438,7 +485,8 @@ def check_ns_iter(ctx: Ctx, spec, marked: bytes, reqs: list, pend: list, case_ba
     ctx.count('nsdecl-below-root:%s' % has_inner_decl)
     # --- iter / iter_depth / iterfind
     tags = sorted({n['tag'] for _, _, _, n in flat})
-    for d in (1, 2, 3):
+    for d in (1, 2, 3, 4):
+        ctx.count('depth-vs-document:%s' % ('deeper-doc' if depth_max > d else 'exact' if depth_max == d else 'shallower-doc'))
         for thin in (True, False):
             for nbytes in (BIG, 5):
                 if ctx.quick() and (thin, nbytes) in ((False, BIG),):
@@ -483,11 +531,42 @@ def check_ns_iter(ctx: Ctx, spec, marked: bytes, reqs: list, pend: list, case_ba
                         ctx.failure('a full element yielded by lazy iter differs (text/children) from the loaded tree',
                                     case, {'node': k, 'got': (txt, nch), 'want': eager_txt[k]})
                         break
-                r = {'op': 'iter', 'tree': tree, 'd': d}
+                r = {'op': 'iter' if iter_variant() == 'pinned' else 'iterdoc', 'tree': tree, 'd': d, 'thin': thin}
                 if tag is not None:
                     r['tag'] = tag
                 reqs.append(r)
                 pend.append(('iter', case, seq))
+        # --- the live tree at every yield of iter_depth: complete elements, remaining siblings, size of _nsmaps,
+        #     and the tree that is left when the iteration is over (model: ldStep / TB.clear)
+        for mode, thin in ((2, True), (2, False), (4, True), (1, True), (5, False), (3, True)):
+            if ctx.quick() and (mode, thin) in ((1, True), (5, False), (3, True)) and ctx.rng.random() < 0.6:
+                continue
+            case = dict(case_base, api='iter_depth-live', depth=d, mode=mode, thin=thin)
+            lres = XMLResource(L.Slow(marked, 5), lazy=d, thin_lazy=thin)
+            anc = []
+            ys = []
+            try:
+                for e in lres.iter_depth(mode, anc):
+                    if e is lres.root or not anc:
+                        inner = []
+                    else:
+                        kids = list(anc[-1])
+                        inner = [nid_of(x) for x in kids[:kids.index(e)]]
+                    ys.append([[nid_of(x) for x in e.iter()], inner, len(lres._nsmaps)])
+            except Exception as ex:  # noqa
+                ctx.failure('iter_depth raised', case, repr(ex))
+                continue
+            final = [nid_of(x) for x in lres.root.iter()]
+            ctx.case(case, depth_max >= 2, 'api:iter_depth-live')
+            by_id = {i: n for i, _, _, n in flat}
+            full_ids = lambda n: [n['id']] + [x for c in n['cs'] for x in full_ids(c)]  # noqa
+            for el, _, _ in ys:
+                if mode != 5 and el and el[0] != 0 and el != full_ids(by_id[el[0]]):
+                    ctx.failure('an element yielded by iter_depth is not the complete subtree of the document', case,
+                                {'yielded': el, 'document': full_ids(by_id[el[0]])})
+                    break
+            reqs.append({'op': 'live', 'tree': tree, 'd': d, 'mode': mode, 'thin': thin})
+            pend.append(('live', case, {'yields': ys, 'final': final, 'nkeys': len(lres._nsmaps)}))
         for mode in (1, 2, 3, 4, 5):
             case = dict(case_base, api='iter_depth', depth=d, mode=mode)
             lres = XMLResource(L.Slow(marked, 5), lazy=d)
@@ -727,15 +806,37 @@ def check_validation(ctx: Ctx, spec, schema, xml: bytes, defects: list, reqs: li
                             {'lazy_path': lp, 'eager_path': ep, 'error': eg.canon[idx],
                              'lazy path is a descendant visited later (C06-F3, fixed by 03cfe89)': ok})
                 break
-    # deeper lazy depths: explored, reported, never alarmed
-    for d in (2, 3):
+    # deeper lazy depths: the PROPERTY (lazy == eager) is explored and reported in the histogram, never alarmed;
+    # the MODEL of the lazy driver at depth k (chunks at depth k looked up statically by '/root/*/…/*', skip rule, root
+    # with max_depth = k, references last; theorems lazy_errors_split / lazy_errors_law quantify over k) is compared
+    # with the real run on the errors that do not depend on document-wide tables
+    for d in (2, 3, 4):
+        case = dict(case_base, api='iter_errors', depth=d, read=BIG)
         try:
             lz = lazy_errors(schema, xml, d, BIG)
             lzc = [c for _, c in lz]
             tagk = 'same' if lzc == eg.canon else 'perm' if sorted(lzc) == sorted(eg.canon) else 'differs'
         except Exception as ex:  # noqa
             tagk = 'raises:' + type(ex).__name__
+            lz = None
         ctx.count(f'explored-depth{d}:{tagk}')
+        if lz is None or root_id_dup:
+            continue
+        ctx.case(case, nontrivial, 'api:iter_errors-deep')
+        ctx.count(f'depth{d}-vs-document:%s' % ('deeper-doc' if depth_max > d else 'exact' if depth_max == d else 'shallower-doc'))
+        try:
+            st_k, cr_k = static_lookup(schema, eg, d)
+            tbk = build_tables(eg, schema, st_k, cr_k, d)
+        except Exception:  # noqa
+            tbk = None
+        if tbk is None or tbk['alt_failed']:
+            ctx.count(f'depth{d}:untabulated')
+            continue
+        reqs.append({'op': 'lazyval', 'tree': eg.tree, 'k': d, 'root': tbk['root'], 'segs': tbk['segs'],
+                     'govs': tbk['govs'], 'static': tbk['static'], 'created': tbk['created'], 'krefs': tbk['krefs'],
+                     'idrefs': tbk['idrefs']})
+        pend.append(('lazyval-deep', case, {'lazy': canon_seq([c for _, c in lz]), 'n_eager': len(eg.errors),
+                                            'table': tbk['table'], 'nonlocal': tbk['nonlocal'], 'k': d}))
 
 
 def strip_xmlns(x: Any) -> Any:
@@ -1041,10 +1142,29 @@ def compare(ctx: Ctx, reqs: list, pend: list, drv: Optional[Driver]) -> None:
         if kind == 'iter':
             got = [x[0] for x in m['yields']]
             if got != p[2]:
-                ctx.mismatch('order of lazy iter', case, p[2], got)
+                ctx.mismatch('order of lazy iter (loop variant: %s)' % iter_variant(), case, p[2], got)
+        elif kind == 'live':
+            obs = p[2]
+            if m.get('fail'):
+                ctx.mismatch('live tree: the model ran into a KeyError/close without open element', case, obs, m)
+            if m['yields'] != obs['yields']:
+                ctx.mismatch('live tree at the yields of iter_depth (element, remaining siblings, len(_nsmaps))', case,
+                             obs['yields'], m['yields'])
+            if m['final'] != obs['final'] or m['nkeys'] != obs['nkeys']:
+                ctx.mismatch('tree / _nsmaps left after iter_depth', case, [obs['final'], obs['nkeys']],
+                             [m['final'], m['nkeys']])
         elif kind in ('iterdepth', 'iterfind'):
             if m['yields'] != p[2]:
                 ctx.mismatch(kind + ' yields/ancestors', case, p[2], m['yields'])
+        elif kind == 'lazyval-deep':
+            info = p[2]
+            model_lazy = [list(x) for x in canon_seq([info['table'][i] for i in m['lazy']]) if not STATEFUL.search(x[1])]
+            real_lazy = [list(x) for x in info['lazy'] if not STATEFUL.search(x[1])]
+            if model_lazy != real_lazy:
+                ctx.mismatch('lazy error sequence at lazy depth %d (errors that do not depend on document-wide tables)'
+                             % info['k'], case, real_lazy, model_lazy)
+            else:
+                ctx.count('depth%d:model==real' % info['k'])
         elif kind == 'lazyval':
             info = p[2]
             if m['eager'] != list(range(info['n_eager'])):
@@ -1099,9 +1219,14 @@ def family(ctx: Ctx, drv: Optional[Driver]) -> None:
 def run(ctx: Ctx, driver_ok: bool) -> None:
     ctx.known = list(ctx.known) + [e for e in load_findings() if e.get('property') == 'C06']
     drv = Driver('drv_c06') if driver_ok else None
+    ctx.count('iter-loop-variant:' + iter_variant())
+    ctx.notes.append('XMLResource.iter lazy loop detected: %s (pinned = reversed post-order below the lazy depth, finding '
+                     'C06-F11, theorem iter_lazy_order_pinned; patched = document order, theorem iter_lazy_order)' % iter_variant())
     corpus(ctx, drv)
     family(ctx, drv)
-    ctx.extra['explanation'] = 'seeded random family; lazy depth 1 claimed, depths 2-3 explored (histogram explored-depth*)'
+    ctx.extra['explanation'] = ('seeded random family; property claimed at lazy depth 1 (depths 2-4 explored: histogram '
+                                'explored-depth*); model of iter / iter_depth / iterfind / _clear / lazy driver compared at lazy '
+                                'depths 1-4 (histogram depth-vs-document, depthK:model==real); iter loop variant: ' + iter_variant())
 
 
 def corpus(ctx: Ctx, drv: Optional[Driver]) -> None:
